@@ -118,7 +118,7 @@ def build_finder_inputs(case):
     als = {}
     for n_, a in enumerate(case["alignments"]):
         pairs = [BenchmarkAlignedPair(BenchmarkAlignmentPosition(r, 0), BenchmarkAlignmentPosition(q, 0)) for r, q in a["pairs"]]
-        al = BionanoAlignment(n_ + 1, a["q"], a["r"], 0, 0, 0, 0, False, 1.0, "", 10, 10, pairs)
+        al = BionanoAlignment(n_ + 1, a["q"], a["r"], 0, 0, 0, 0, bool(a.get("rev")), 1.0, "", 10, 10, pairs)
         al_dict[a["r"]].append(al)
         als[a["q"]] = al
     return r_dict, q_dict, al_dict, als
@@ -167,7 +167,7 @@ def check_finders(case):
     out2 = sut(segment_indels.look_for_indels_in_breakage, al_dict, r_dict, q_dict, bd2)
     n2 = check_calls(out2, case, "segment_indels",
                      lambda qid: [(tuple(by_q[qid]["pairs"][i]), tuple(by_q[qid]["pairs"][i + 1])) for i in by_q[qid]["break"] if i + 1 < len(by_q[qid]["pairs"])])
-    return {"nontrivial": n1 + n2 >= 1, "classes": [f"calls={min(n1 + n2, 3)}",
+    return {"nontrivial": n1 + n2 >= 1, "classes": [f"calls={min(n1 + n2, 3)}", "reverse-alignment" if any(a.get("rev") for a in case["alignments"]) else "forward-only",
                                                     "insertion" if out1["insertion"] or out2["insertion"] else "no-insertion",
                                                     "deletion" if out1["deletion"] or out2["deletion"] else "no-deletion"]}
 
@@ -197,15 +197,19 @@ def finder_strategy(draw):
             ql.append(ql[-1] + max(50.0, d + draw(st.sampled_from([0, 0, 50, -50, 150, -150, 2500, -2500, 30000, -30000, 120000]))))
         qid = k + 1
         queries.append({"id": qid, "labels": ql})
-        pairs = [[i0 + j + 1, j + 1] for j in range(m)]
+        rev = draw(st.booleans())
+        # reverse strand: query label numbers descend along the alignment
+        pairs = [[i0 + j + 1, (m - j) if rev else (j + 1)] for j in range(m)]
+        if rev:
+            ql = [ql[-1] - x for x in ql[::-1]]
         drop = set(draw(st.lists(st.integers(1, m - 2), max_size=2)))
         pairs = [p for j, p in enumerate(pairs) if j not in drop]
         nb = draw(st.integers(1, 2))
         br = sorted(set(draw(st.lists(st.integers(0, len(pairs) - 2), min_size=nb, max_size=nb))))
-        a = {"q": qid, "r": ref["id"], "pairs": pairs, "break": br}
+        a = {"q": qid, "r": ref["id"], "pairs": pairs, "break": br, "rev": rev}
         if draw(st.integers(0, 3)) == 0:
             j = br[0]
-            a["break_pair"] = [pairs[j][0], max(1, pairs[j][1] - 1)]
+            a["break_pair"] = [pairs[j][0], min(m, max(1, pairs[j][1] + (1 if rev else -1)))]
         alignments.append(a)
     return {"refs": refs, "queries": queries, "alignments": alignments}
 
@@ -218,5 +222,5 @@ def subchecks(tier):
         Sub("write-file", "hyp", check_write, strategy=lambda: calls_strategy(types=("insertion", "deletion")), examples=4000 if q else 100000,
             shrink_budget=500),
         Sub("finders", "hyp", check_finders, strategy=finder_strategy, examples=8000 if q else 200000, shrink_budget=500,
-            required_classes=("insertion", "deletion")),
+            required_classes=("insertion", "deletion", "reverse-alignment")),
     ]
